@@ -1196,3 +1196,190 @@ def c12_mixed_array_histories(rng, nmax=3):
                         H.clean = False
                         out.append(H)
     return out
+
+
+def seqform_histories(rng, reps=3):
+    """serde's derived visitors also read the SEQUENCE form of a struct (Model/Wire.v de_struct): a Notification is
+    `[jsonrpc, method, params]`, a SubscriptionPayload `[subscription, result]`, a SubscriptionPayloadError `[subscription, error]`,
+    an ErrorObject `[code, message, data]`.  A frame that starts with '[' is an array frame for the client, so a sequence-form
+    Notification is reachable only as an ELEMENT of an array; sequence-form params and error objects are reachable everywhere.
+    Families (subscription active, numeric / string ids):
+      items      the same kind of item as object form / params-sequence form / element-sequence form / both, single and packed
+      close      the closing error notification in each form -- with the PAYLOAD in sequence form the member name is gone and
+                 the client reads `[sid, x]` as an item (SubscriptionResponse is tried first): metadata says `push`, not `close`
+      mnotif     method notifications in sequence form inside arrays (a registered handler sees the params)
+      callerr    a call answered with a sequence-form error object (right length; too short = not a response = fatal)
+      batcherr   batch entries answered with sequence-form error objects, a sequence-form notification in the same array
+      wrong      right-looking arrays of the wrong length (a plain notification for nobody, or unparseable = fatal)."""
+    out = []
+
+    def item(s, form, v, err=False):
+        """-> (json value, needs an array frame)"""
+        pobj = {"subscription": s["sid"], ("error" if err else "result"): v}
+        pseq = [s["sid"], v]
+        if form == "obj":
+            return {"jsonrpc": "2.0", "method": s["nm"], "params": pobj}, False
+        if form == "pseq":
+            return {"jsonrpc": "2.0", "method": s["nm"], "params": pseq}, False
+        if form == "eseq":
+            return ["2.0", s["nm"], pobj], True
+        return ["2.0", s["nm"], pseq], True          # "both"
+
+    FORMS = ["obj", "pseq", "eseq", "both"]
+
+    def start(idstr, bufcap=8, strsid=None):
+        H = new_hist(rng, idstr=idstr, qcap=16, bufcap=bufcap, gate=0)
+        H.op_sub()
+        H.sidn += 1
+        sid = ("q%d" % H.sidn) if (rng.random() < 0.5 if strsid is None else strsid) else H.sidn
+        s = accept_sub_h(H, H.h, sid=sid)
+        return H, s
+
+    def push_frame(H, s, forms):
+        """one frame with one item per form; a single top-level object when possible (and at random), else an array"""
+        vals = [H.marker(0) for _ in forms]
+        built = [item(s, f, v) for f, v in zip(forms, vals)]
+        items = [dict(what="push", sid=s["sid"], val=v, form=f) for f, v in zip(forms, vals)]
+        if len(built) == 1 and not built[0][1] and rng.random() < 0.7:
+            H.back(built[0][0], what="pushes", items=items, grouped=False)
+        else:
+            H.back(J([o for o, _ in built]), what="pushes", items=items, grouped=True)
+
+    def nexts(H, h, n):
+        for _ in range(n):
+            H.add("next %d" % h, kind="next")
+
+    for idstr in (0, 1):
+        for _ in range(reps):
+            # ---- items: every single form alone, then random packings
+            for f in FORMS:
+                H, s = start(idstr)
+                push_frame(H, s, ["obj"])
+                push_frame(H, s, [f])
+                push_frame(H, s, [f, "obj", f])
+                nexts(H, s["h"], 6)
+                H.clean = False
+                out.append(H)
+            H, s = start(idstr)
+            total = 0
+            for _ in range(rng.choice([2, 3, 4])):
+                forms = [rng.choice(FORMS) for _ in range(rng.choice([1, 1, 2, 3]))]
+                total += len(forms)
+                push_frame(H, s, forms)
+                if rng.random() < 0.5:
+                    nexts(H, s["h"], rng.choice([1, 2]))
+            nexts(H, s["h"], total + 1)
+            H.clean = False
+            out.append(H)
+            # ---- close: the error notification in each form, items before and after
+            for f in FORMS:
+                for grouped_with_item in (False, True):
+                    H, s = start(idstr)
+                    push_frame(H, s, [rng.choice(FORMS)])
+                    v = H.marker(0)
+                    o, need_arr = item(s, f, v, err=True)
+                    is_item = f in ("pseq", "both")           # payload in sequence form: read as SubscriptionResponse
+                    extra_forms = [rng.choice(FORMS)] if grouped_with_item else []
+                    extra_vals = [H.marker(0) for _ in extra_forms]
+                    extra = [item(s, ef, ev)[0] for ef, ev in zip(extra_forms, extra_vals)]
+                    extra_items = [dict(what="push-ended" if not is_item else "push", sid=s["sid"], val=ev) for ev in extra_vals]
+                    frame = o if not (need_arr or extra) else J([o] + extra)
+                    if is_item:
+                        H.back(frame, what="pushes", items=[dict(what="push", sid=s["sid"], val=v, form=f + "-error")] + extra_items,
+                               grouped=not isinstance(frame, dict))
+                    else:
+                        H.active.pop(s["h"], None)
+                        H.ended.append(s)
+                        s["server_closed"] = True
+                        H.back(frame, what="close", sid=s["sid"], h=s["h"], grouped=not isinstance(frame, dict), items=extra_items)
+                    v2 = H.marker(0)
+                    H.back(item(s, "obj", v2)[0], what="pushes", items=[dict(what="push" if is_item else "push-ended", sid=s["sid"], val=v2)],
+                           grouped=False)
+                    nexts(H, s["h"], 5)
+                    H.clean = False
+                    out.append(H)
+            # ---- method notifications in sequence form inside arrays
+            H, s = start(idstr)
+            H.op_subm()
+            mh, me = H.h, H.methods[H.h]
+            vs = [H.marker(0) for _ in range(4)]
+            H.back(J([["2.0", me, [vs[0]]]]), what="pushes", items=[dict(what="mnotif", method=me, val=[vs[0]])], grouped=True)
+            H.back(J([["2.0", me, None], {"jsonrpc": "2.0", "method": me, "params": [vs[1]]}, item(s, "both", vs[2])[0]]), what="pushes",
+                   items=[dict(what="mnotif", method=me, val=None), dict(what="mnotif", method=me, val=[vs[1]]),
+                          dict(what="push", sid=s["sid"], val=vs[2])], grouped=True)
+            H.back(J([["2.0", "gamma", {"a": vs[3]}]]), what="pushes", items=[dict(what="mnotif", method="gamma", val={"a": vs[3]})], grouped=True)
+            nexts(H, mh, 4)
+            nexts(H, s["h"], 2)
+            H.clean = False
+            out.append(H)
+            # ---- a call answered with a sequence-form error object
+            for data in (None, {"why": [1, None]}, "d"):
+                H, s = start(idstr)
+                H.op_call()
+                h = H.h
+                i = H.calls.pop(h)
+                H.answered.append(i)
+                o = {"jsonrpc": "2.0", "id": H.wid(i), "error": [-32000 - rng.randrange(5), H.marker(i), data]}
+                if rng.random() < 0.3:
+                    del o["jsonrpc"]
+                H.back(o, what="answer", id=i, h=h, payload=o)
+                push_frame(H, s, [rng.choice(FORMS)])
+                nexts(H, s["h"], 2)
+                H.clean = False
+                out.append(H)
+            for bad_err in ([-32000, "m"], [-32000, "m", None, 1], [], ["x", "m", None], [[-32000, "m", None]]):
+                H, s = start(idstr)
+                H.op_call()
+                h = H.h
+                i = H.calls[h]
+                H.back({"jsonrpc": "2.0", "id": H.wid(i), "error": bad_err}, what="bad-garbage")     # not a Response, not a notification
+                H.dead = True
+                nexts(H, s["h"], 1)
+                H.clean = False
+                out.append(H)
+            # ---- batch entries answered with sequence-form error objects (+ a sequence-form notification in the same array)
+            for n in (1, 2, 3):
+                for with_note in (False, True):
+                    H, s = start(idstr)
+                    h = H.newh()
+                    lo = H.next_id
+                    H.next_id += n
+                    H.add("batch %d %s" % (h, " ".join("%s -" % hx("b%d_%d" % (h, j)) for j in range(n))), kind="batch", h=h, lo=lo, n=n)
+                    rot = rng.randrange(n)
+                    ids = [lo + (j + rot) % n for j in range(n)]
+                    objs = []
+                    for i in ids:
+                        if rng.random() < 0.6:
+                            objs.append({"jsonrpc": "2.0", "id": H.wid(i), "error": [-32001, H.marker(i), rng.choice([None, [i]])]})
+                        else:
+                            objs.append(H.resp_ok(i) if rng.random() < 0.7 else H.resp_err(i))
+                    arr, items = list(objs), []
+                    if with_note:
+                        v = H.marker(0)
+                        arr.insert(rng.randrange(len(arr) + 1), item(s, rng.choice(["eseq", "both", "pseq"]), v)[0])
+                        items = [dict(what="push", sid=s["sid"], val=v)]
+                    H.back(J(arr), what="batch-answer", h=h, lo=lo, n=n, mode="perm", objs=objs, items=items)
+                    nexts(H, s["h"], 2)
+                    H.clean = False
+                    out.append(H)
+            # ---- arrays of the wrong length
+            H, s = start(idstr)
+            v = H.marker(0)
+            # params of a length other than 2: not a subscription payload, but still a plain notification (for nobody)
+            H.back({"jsonrpc": "2.0", "method": s["nm"], "params": [s["sid"], v, 1]}, what="pushes",
+                   items=[dict(what="mnotif", method=s["nm"], val=[s["sid"], v, 1])], grouped=False)
+            H.back(J([["2.0", s["nm"], [s["sid"]]]]), what="pushes", items=[dict(what="mnotif", method=s["nm"], val=[s["sid"]])], grouped=True)
+            push_frame(H, s, ["both"])
+            nexts(H, s["h"], 2)
+            H.clean = False
+            out.append(H)
+            for bad in ([["2.0", "ev0"]], [["2.0", "ev0", [1, 5], None]], [[]], [["1.0", "ev0", [1, 5]]], [[None, "ev0", {"subscription": 1, "result": 5}]],
+                        [["2.0", 5, "echo", [1]]]):
+                H, s = start(idstr)
+                push_frame(H, s, ["eseq"])
+                H.back(J(bad), what="bad-garbage")
+                H.dead = True
+                nexts(H, s["h"], 2)
+                H.clean = False
+                out.append(H)
+    return out
